@@ -24,7 +24,8 @@ Record dcase := mkD {
   d_exists : list bytes;
   d_req : req;
   d_obs : list (item * Z);
-  d_changed : bool
+  d_changed : bool;
+  d_created : list bytes        (* topics that exist after the request and did not before *)
 }.
 
 Definition item_eqb (a b : item) : bool := (fst a =? fst b) && bytes_eqb (snd a) (snd b).
@@ -48,4 +49,6 @@ Definition check_dcase (k : dcase) : bool :=
   let out := handle e p (d_req k) in
   check_items out (d_obs k) &&
   (* nothing proceeds => nothing may have changed *)
-  (negb (is_nil (effects out)) || negb (d_changed k)).
+  (negb (is_nil (effects out)) || negb (d_changed k)) &&
+  (* every topic the real handler created is one the model lets this principal create *)
+  forallb (fun n => existsb (bytes_eqb n) (creates e p (d_req k))) (d_created k).
